@@ -81,6 +81,11 @@ CLAIMED = {
     design='5 C15',
     note='Trusted: RNG stub contract, pandas/xarray object columns, z3. Known finding: pooled dimension with n_samples < configured n_ids. Bounds: <=2 outputs, <=3 times, <=2 samples, <=2 chains x 2 (3) draws x 2 individuals, 2 averaged models.',
     technique='symbolic execution with RNG stub; term inspection of the solution symbol + SMT decisions of the per-row law'),
+ 'C16': dict(
+    text='Symbolic verification of seeding over a named-stream RNG stub: every sampling entry point (4 error models, 12 population models incl. composed/covariate/reduced, PredictiveModel, PopulationPredictiveModel, Posterior/Prior/PAM predictive models, the three sample_initial_parameters) is run twice with the same integer seed under different global generator states and an interleaved foreign draw and the result terms must coincide; different seeds must give different stream variables; distinct noise carriers must depend on disjoint stream variables; a Generator passed as seed must be advanced.',
+    design='5 C16',
+    note='Trusted: RNG stub = NumPy seeding semantics (default_rng(int) restarts a stream, default_rng(Generator) continues it, np.random.seed resets the global stream); pints priors modelled as drawing from the global generator. Syntactic disjointness of stream variables implies independence.',
+    technique='symbolic execution with a named-stream RNG stub; term identity / SMT equality of two runs; forks over random indices'),
 }
 
 NOT_APPLICABLE = {
